@@ -1,20 +1,20 @@
 /-
   C18 (floating-point clauses) — frequency <-> scaled-ppm conversion round-trips to within
   one unit in the last place; the drift allowance is proportional to the interval.
-  Model: ScionTime/Model/UnixutilFloat.lean over the software double Model/F64.lean;
+  Model: ScionTime/Model/F64P_UnixutilFloat.lean over the software double Model/F64.lean;
   rounding lemmas: ScionTime/Proofs/F64.lean.
 -/
-import ScionTime.Model.UnixutilFloat
+import ScionTime.Model.F64P_UnixutilFloat
 import ScionTime.Proofs.F64
-import ScionTime.Proofs.C18Float
+import ScionTime.Proofs.F64P_C18Float
 import ScionTime.Gen.Unixutil
-namespace ScionTime.C18Float
-open ScionTime.F64 ScionTime.UnixutilFloat
+namespace ScionTime.F64P_C18Float
+open ScionTime.F64 ScionTime.F64P_UnixutilFloat
 
 /-- Pins: the scale factor inside both function bodies of /repo's current source
     (`65536.0 * 1e6`, evaluated exactly by harness/extract) is the model's. -/
-theorem C18_pin_scale_to : Gen.Unixutil.scaledPPMFromFreqFactor = scale := by decide
-theorem C18_pin_scale_from : Gen.Unixutil.freqFromScaledPPMFactor = scale := by decide
+theorem C18_pin_scale_to : Gen.Unixutil.f64p_scaledPPMFromFreqFactor = scale := by decide
+theorem C18_pin_scale_from : Gen.Unixutil.f64p_freqFromScaledPPMFactor = scale := by decide
 
 /-! ### scaled ppm -> frequency -> scaled ppm -/
 
@@ -211,4 +211,4 @@ example : pow2 (-900) ≤ (pow2 (-20)).abs ∧ (pow2 (-20)).abs ≤ 1 / 2 := by
   rw [Rat.abs_of_nonneg (Rat.le_of_lt (pow2_pos _))]
   exact ⟨pow2_mono (by decide), by rw [show (1 : Rat) / 2 = pow2 (-1) by rw [pow2_neg]; congr 1]; exact pow2_mono (by decide)⟩
 
-end ScionTime.C18Float
+end ScionTime.F64P_C18Float
